@@ -142,10 +142,10 @@ Proof.
     destruct (convert KAny v); inversion H; subst; auto.
 Qed.
 
-(* the variants in which the two repaired defects (1761ed1, 61c97e1) are repaired; /repo HEAD is one of them *)
+(* the variants in which the defects fixed by 1761ed1 and 61c97e1 are repaired; /repo HEAD (= Repaired) is one *)
 Definition fixed (var : variant) : Prop := v_persist_first var = true /\ v_set_atomic var = true.
 Lemma fixed_repaired : fixed Repaired.  Proof. split; reflexivity. Qed.
-Lemma fixed_head : fixed FrrDefect.  Proof. split; reflexivity. Qed.
+Lemma fixed_pre_e792c74 : fixed FrrDefect.  Proof. split; reflexivity. Qed.
 Lemma set_store_fixed var : v_set_atomic var = true -> forall s h p v, set_store var s h p v = set_store Repaired s h p v.
 Proof. intros H s h p v. unfold set_store. rewrite H. reflexivity. Qed.
 
